@@ -1,18 +1,18 @@
 ------------------------------ MODULE MC_trace ------------------------------
 EXTENDS RETrace
-XDets == {"det", "det2", "pdet"}
-XMotors == {"motor", "motor2"}
+XDets == {"det", "det2", "pdet", "apdet"}
+XMotors == {"motor", "motor2", "amotor"}
 XMons == {"mon1"}
 ReadValDef == [d \in XDets \cup XMotors \cup XMons |->
-                 CASE d = "det" -> "dict:det" [] d = "det2" -> "dict:det2" [] d = "pdet" -> "dict:pdet"
+                 CASE d = "amotor" -> "dict:amotor,amotor_setpoint" [] d = "apdet" -> "dict:apdet" [] d = "det" -> "dict:det" [] d = "det2" -> "dict:det2" [] d = "pdet" -> "dict:pdet"
                    [] d = "motor" -> "dict:motor,motor_setpoint" [] d = "motor2" -> "dict:motor2,motor2_setpoint"
                    [] d = "mon1" -> "dict:mon1"]
 DataKeysDef == [d \in XDets \cup XMotors \cup XMons |->
-                 CASE d = "det" -> {"det"} [] d = "det2" -> {"det2"} [] d = "pdet" -> {"pdet"}
+                 CASE d = "amotor" -> {"amotor", "amotor_setpoint"} [] d = "apdet" -> {"apdet"} [] d = "det" -> {"det"} [] d = "det2" -> {"det2"} [] d = "pdet" -> {"pdet"}
                    [] d = "motor" -> {"motor", "motor_setpoint"} [] d = "motor2" -> {"motor2", "motor2_setpoint"}
                    [] d = "mon1" -> {"mon1"}]
 StreamOrderDef == <<"baseline", "interruptions", "mon1", "primary">>
-DevOrderDef == <<"det", "det2", "mon1", "motor", "motor2", "pdet">>
+DevOrderDef == <<"det", "det2", "mon1", "motor", "motor2", "pdet", "amotor", "apdet">>
 M(c, o, r, a) == Msg(c, o, r, a)
 PlanLibDef == [n |-> <<M("null", "", "", "")>>, s |-> <<M("sleep", "", "", "")>>,
                nn |-> <<M("null", "", "", ""), M("null", "", "", "")>>]
